@@ -54,7 +54,7 @@ static void add(std::vector<Target> &V, const std::string &name, const std::stri
 	// a key whose self-signature verifies is checked through all 272 NIZK rounds, each hashing the growing transcript
 	// (about 1 s of CPU for a full check): a thinned catalogue
 	if (name == "pubkey.import-check-resigned")
-		t.stride = thorough ? 8 : 64;
+		t.stride = thorough ? 16 : 256;
 	V.push_back(t);
 }
 
